@@ -349,6 +349,13 @@ func runC10x(r *emit.Rand) {
 		if strings.Contains(req.Target, "nostore") {
 			a.Lines[0] = "Cache-Control: no-store"
 		}
+		if strings.Contains(req.Target, "cut-short") { // declares 100 body bytes, sends 40, closes
+			a = e2elib.NewAnswer(200, []byte(strings.Repeat("z", 100)), "Cache-Control: max-age=60", "X-Target: "+req.Target)
+			if strings.Contains(req.Target, "false") {
+				a.Lines[0] = "Cache-Control: no-store"
+			}
+			a.AbortAfter = 40
+		}
 		return a
 	})
 	// opened now, used at the very end of the stage (see old-tunnel below)
@@ -658,6 +665,47 @@ func runC10x(r *emit.Rand) {
 			fail("old-tunnel", det, "an exchange on a tunnel that had been open for a while did not get its own answer")
 		}
 		oldTunnel.Close()
+	}
+	// the origin breaks off in the middle of a declared body: on a plain proxied connection the client learns it from the
+	// connection ending; inside a tunnel it must learn it the same way, not wait for bytes that will never come
+	for _, storable := range []bool{true, false} {
+		cut := fmt.Sprintf("/cut-short-%v", storable)
+		var plainMs, tunnelMs int64
+		var plainErr, tunnelErr string
+		t0 := time.Now()
+		if rp, err := env.DoPlain(env.PlainRequest("GET", cut+"-plain", nil, nil), "GET", 6*time.Second); err != nil {
+			plainErr = err.Error()
+		} else {
+			plainErr = rp.BodyErr
+		}
+		plainMs = time.Since(t0).Milliseconds()
+		c, _, derr := env.DialTunnel(env.Origin.Addr, "127.0.0.1", 8*time.Second)
+		if derr != nil {
+			panic(derr)
+		}
+		t0 = time.Now()
+		c.Send(env.TunnelRequest("GET", cut+"-tunnel", nil, nil), 5*time.Second)
+		complete := ""
+		if rt, err := c.Read("GET", 6*time.Second); err != nil {
+			tunnelErr = err.Error()
+		} else {
+			tunnelErr = rt.BodyErr
+			if rt.BodyErr == "" {
+				complete = string(rt.Body)
+			}
+		}
+		tunnelMs = time.Since(t0).Milliseconds()
+		c.Close()
+		total++
+		dist["origin-breaks-off-mid-body"]++
+		if complete != "" {
+			fail("origin-breaks-off-mid-body", map[string]any{"origin": "declares 100 body bytes, sends 40, closes", "storable": storable, "client_received_as_complete_body": trunc(complete)},
+				"the origin broke off after 40 of 100 body bytes; the client in the tunnel received a complete-looking body of the announced length — bytes the origin never sent")
+		}
+		det := map[string]any{"origin": "declares 100 body bytes, sends 40, closes", "storable": storable, "plain_ms": plainMs, "plain_outcome": plainErr, "tunnel_ms": tunnelMs, "tunnel_outcome": tunnelErr}
+		if plainMs < 3000 && (tunnelMs >= 5000 || strings.Contains(tunnelErr, "timeout")) {
+			fail("origin-breaks-off-mid-body", det, "the origin broke off in the middle of a body: on the plain connection the client saw the connection end at once, inside the tunnel it was left waiting for the missing bytes")
+		}
 	}
 	// an exchange the proxy has to refuse (Host that cannot be turned into a target) whose BODY looks like a request,
 	// followed by a real exchange: the body is payload of the first exchange and of nothing else
@@ -1234,7 +1282,83 @@ func runC05x(r *emit.Rand) {
 	starters()
 }
 
+// getWithBody: a GET that carries a body (a search API) whose answer is not storable, storable, or not a 200: the origin
+// answered successfully, the client gets that answer; and whenever the origin is contacted it is shown the client's body.
+func getWithBody() {
+	for _, tlsOn := range []bool{false, true} {
+		dir := filepath.Join(*flagOut, fmt.Sprintf("envgb-%v", tlsOn))
+		env, err := e2elib.Start(e2elib.Options{Backend: "memory", Dir: dir, TLS: tlsOn, Tune: func(cfg *config.Config) {
+			cfg.Proxy.CachePolicy.ForceDefaultMaxAge.Overwrite(false)
+			cfg.Proxy.CachePolicy.IgnoreCacheControl.Overwrite(false)
+		}})
+		if err != nil {
+			panic(err)
+		}
+		env.Origin.SetHandler(func(req e2elib.OriginRequest, k int) e2elib.Answer {
+			cc := "Cache-Control: no-store"
+			if strings.Contains(req.Target, "storable") {
+				cc = "Cache-Control: max-age=600"
+			}
+			status := 200
+			if strings.Contains(req.Target, "created") {
+				status = 201
+			}
+			return e2elib.NewAnswer(status, []byte(fmt.Sprintf("T=%s;got %d body bytes: %s", req.Target, len(req.Body), req.Body)), cc)
+		})
+		for i, path := range []string{"/search/nostore", "/search/storable", "/search/created", "/search/nostore"} {
+			body := []byte(fmt.Sprintf("query=%d&x=%s", i, strings.Repeat("y", 40+i)))
+			for _, chunked := range []bool{false, true} {
+				hs := []string{fmt.Sprintf("Content-Length: %d", len(body))}
+				wire := body
+				if chunked {
+					hs = []string{"Transfer-Encoding: chunked"}
+					wire = []byte(fmt.Sprintf("%x\r\n%s\r\n0\r\n\r\n", len(body), body))
+				}
+				env.Origin.ResetLog()
+				var resp *e2elib.Response
+				var rerr error
+				if tlsOn {
+					c, _, derr := env.DialTunnel(env.Origin.Addr, "127.0.0.1", 5*time.Second)
+					if derr != nil {
+						panic(derr)
+					}
+					c.Send(env.TunnelRequest("GET", path, hs, wire), 5*time.Second)
+					resp, rerr = c.Read("GET", 6*time.Second)
+					c.Close()
+				} else {
+					resp, rerr = env.DoPlain(env.PlainRequest("GET", path, hs, wire), "GET", 6*time.Second)
+				}
+				total++
+				dist["get-with-body"]++
+				det := map[string]any{"request": "GET " + path + " with a body of " + fmt.Sprint(len(body)) + " bytes", "chunked_request_body": chunked, "tls": tlsOn}
+				var saw []string
+				wrongBody := false
+				for _, lr := range env.Origin.Log() {
+					saw = append(saw, fmt.Sprintf("%s %s body=%d", lr.Method, lr.Target, len(lr.Body)))
+					if !bytes.Equal(lr.Body, body) {
+						wrongBody = true
+					}
+				}
+				det["origin_saw"] = saw
+				want := fmt.Sprintf("T=%s;got %d body bytes: %s", path, len(body), body)
+				switch {
+				case rerr != nil:
+					fail("get-with-body", det, "a request the origin answers fine got no response: "+rerr.Error())
+				case resp.Status >= 500 || string(resp.Body) != want:
+					det["status"], det["body"] = resp.Status, trunc(string(resp.Body))
+					fail("get-with-body", det, "the origin answered the GET (which carries a body) successfully; the client did not receive that answer")
+				case wrongBody:
+					fail("get-with-body", det, "the origin was sent the request with another body than the client's")
+				}
+			}
+		}
+		env.Close()
+		os.RemoveAll(dir)
+	}
+}
+
 func runC09x(r *emit.Rand) {
+	getWithBody()
 	hangupC09x()
 	cacheDirGone()
 	budgetZero()
